@@ -51,6 +51,27 @@ class Builtin:
         return f"<builtin {self.name}>"
 
 
+class ClassOfV:
+    """x.__class__ of a union-typed value (kept symbolic: no fork)"""
+
+    def __init__(self, sym):
+        self.sym = sym
+
+
+class NameOfV:
+    """x.__class__.__name__ of a union-typed value"""
+
+    def __init__(self, sym):
+        self.sym = sym
+
+
+class VirtualM:
+    """dynamically dispatched method of a closed union, used through its virtual contract"""
+
+    def __init__(self, recv, root, name):
+        self.recv, self.root, self.name = recv, root, name
+
+
 class ValMethod:
     def __init__(self, recv, name):
         self.recv, self.name = recv, name
@@ -168,6 +189,8 @@ class Exec:
         self.iface_used = set()
         self.loop_specs = {}
         self.trace_calls = []
+        self.unordered_sites = []
+        self.use_virtual = True
 
     # ============================================================== solver helpers
     def base_axioms(self):
@@ -810,6 +833,15 @@ class Exec:
         return v_cmp(sym, l, r)
 
     def py_eq(self, l, r):
+        if isinstance(r, NameOfV) and not isinstance(l, NameOfV):
+            l, r = r, l
+        if isinstance(l, NameOfV):
+            if isinstance(r, str):
+                t = l.sym.ty
+                if r in t.members():
+                    return mkbool(self.world.recognizer(r)(l.sym.e))
+                return False
+            raise PyvcUnsupported("comparison of a class name with a non-literal")
         if isinstance(l, ClassV) and isinstance(r, ClassV):
             return l.ci.name == r.ci.name
         if isinstance(l, (ClassV, TypeRef, Builtin)) or isinstance(r, (ClassV, TypeRef, Builtin)):
@@ -945,6 +977,13 @@ class Exec:
                 yield r.fields, st
             else:
                 raise PyvcUnsupported("report attr")
+        elif isinstance(r, ClassOfV):
+            if attr == "__name__":
+                yield NameOfV(r.sym), st
+            else:
+                raise PyvcUnsupported(f"attribute {attr} on the class of a union value")
+        elif isinstance(r, NameOfV):
+            yield Builtin("opaque." + attr), st
         elif isinstance(r, FuncV) and attr == "__name__":
             yield getattr(r.node, "name", "<lambda>"), st
         else:
@@ -992,10 +1031,10 @@ class Exec:
             return
         if isinstance(t, UnionTy):
             if attr == "__class__":
-                for m in t.members():
-                    for b, st2 in self.fork(st, self.world.recognizer(m)(r.e)):
-                        if b:
-                            yield ClassV(self.repo.classes[m]), st2
+                yield ClassOfV(r), st
+                return
+            if self.specs is not None and (t.root, attr) in self.specs.virtuals and self.use_virtual:
+                yield VirtualM(r, t.root, attr), st
                 return
             # fork over the constructors
             for m in t.members():
@@ -1079,6 +1118,48 @@ class Exec:
                     return
         raise PyvcUnsupported(f"class attribute {ci.name}.{attr}")
 
+    # ---- iteration of unordered collections: an arbitrary (unconstrained) ordering of the elements
+    def enumerate_unordered(self, x, st, where):
+        from .builtins import MapView
+        kind = "set"
+        if isinstance(x, MapView):
+            kind, coll = x.kind, x.coll
+        elif isinstance(x.ty, MapTy):
+            kind, coll = "keys", x
+        else:
+            coll = x
+        self.unordered_sites.append((self.cur_key, where, kind))
+        if isinstance(coll.ty, SetTy):
+            kt = coll.ty.elem
+            mem = lambda k: z3.Select(coll.e, k)
+        else:
+            kt = coll.ty.key
+            mem = lambda k: coll.ty.opt.is_some(z3.Select(coll.e, k))
+        ks = z3.Const(fresh_name("order"), z3.SeqSort(kt.sort))
+        k = z3.Const(fresh_name("k"), kt.sort)
+        i, j = z3.Int(fresh_name("i")), z3.Int(fresh_name("j"))
+        n = z3.Length(ks)
+        facts = [z3.ForAll([k], z3.Contains(ks, z3.Unit(k)) == mem(k)),
+                 z3.ForAll([i, j], z3.Implies(z3.And(0 <= i, i < j, j < n), ks[i] != ks[j])),
+                 n == card(coll)] + card_axioms_for([coll])
+        st2 = st.assume(*facts)
+        if kind in ("set", "keys"):
+            yield Sym(SeqTy(kt), ks), st2
+            return
+        vt = coll.ty.val
+        if kind == "values":
+            vs = z3.Const(fresh_name("vals"), z3.SeqSort(vt.sort))
+            st2 = st2.assume(z3.Length(vs) == n,
+                             z3.ForAll([i], z3.Implies(z3.And(0 <= i, i < n), vs[i] == coll.ty.opt.val(z3.Select(coll.e, ks[i])))))
+            yield Sym(SeqTy(vt), vs), st2
+            return
+        tt = TupleTy([kt, vt])
+        its = z3.Const(fresh_name("items"), z3.SeqSort(tt.sort))
+        st2 = st2.assume(z3.Length(its) == n,
+                         z3.ForAll([i], z3.Implies(z3.And(0 <= i, i < n),
+                                                   its[i] == tt.mk(ks[i], coll.ty.opt.val(z3.Select(coll.e, ks[i]))))))
+        yield Sym(SeqTy(tt), its), st2
+
     # ---- uninterpreted functions for abstract objects / libraries
     def uf_apply(self, name, args, ret_ty):
         zs = []
@@ -1116,6 +1197,13 @@ class Exec:
             yield from self.call_func(f, None, args, kw, st, where)
         elif isinstance(f, BoundM):
             yield from self.call_func(f.fn, f.recv, args, kw, st, where)
+        elif isinstance(f, VirtualM):
+            fn, owner = self.repo.find_method(f.root, f.name)
+            bound = self.bind_params(fn, f.recv, args, kw, self.repo.classes[owner].path)
+            cid = next(self.call_counter)
+            self.unwrap_opt_args(fn, self.repo.classes[owner].path, {}, bound, st, f"{self.cur_key}.call{cid}@{where}.{f.root}.{f.name}", f"{f.root}.{f.name}")
+            res, st2 = self.specs.virtual_apply(self, f.root, f.name, f.recv, bound, st, f"{self.cur_key}.call{cid}@{where}")
+            yield res, st2
         elif isinstance(f, ClassV):
             yield from self.construct(f, args, kw, st, where)
         elif isinstance(f, Builtin):
@@ -1184,24 +1272,41 @@ class Exec:
     def call_opaque(self, key, fv, bound, st, where):
         spec = self.specs.get(key)
         cid = next(self.call_counter)
-        # an Optional value passed where the callee declares a plain type: the caller has checked it
-        # (obligation `arg_not_none`), the contract sees the unwrapped value
-        anns = {p.arg: p.annotation for p in fv.node.args.posonlyargs + fv.node.args.args + fv.node.args.kwonlyargs}
-        for pname, val in list(bound.items()):
-            if isinstance(val, Sym) and isinstance(val.ty, OptTy) and anns.get(pname) is not None:
-                dt = spec.arg_types.get(pname) or self.world.ann_to_ty(anns[pname], fv.modpath)
-                if dt is not None and not isinstance(dt, OptTy):
-                    if not self.entails(st, v_not(v_is_none(val))):
-                        self.obligations.append(Obligation(f"{self.cur_key}.call{cid}@{where}.{key.split('::')[1]}.arg_not_none.{pname}",
-                                                           "call-pre", list(st.hyps), z3_bool(v_not(v_is_none(val))), {"callee": key}))
-                    bound[pname] = v_unwrap(val)
+        self.unwrap_opt_args(fv.node, fv.modpath, spec.arg_types, bound, st, f"{self.cur_key}.call{cid}@{where}.{key.split('::')[1]}", key)
         res, st2 = spec.apply_at_call(self, bound, st, f"{self.cur_key}.call{cid}@{where}")
         if st2 is None:
             return
-        if spec.reports_fn is not None:
-            for alts in spec.reports_fn(bound, res):
-                pass
-        yield res, st2
+        if spec.reports_fn is None:
+            yield res, st2
+            return
+        from .spec import NS
+        rt = self.world.class_ty("ReportType")
+        todo = list(spec.reports_fn(NS(bound), res))
+
+        def go(i, st):
+            if i == len(todo):
+                yield res, st
+                return
+            cond, rname, fields = todo[i]
+            for b, st3 in self.fork(st, cond if isinstance(cond, bool) else z3_bool(cond)):
+                if b:
+                    yield from go(i + 1, st3.report(Report(Sym(rt, rt.const(rname)), dict(fields))))
+                else:
+                    yield from go(i + 1, st3)
+        yield from go(0, st2)
+
+    def unwrap_opt_args(self, fn_node, modpath, arg_types, bound, st, callid, key):
+        """an Optional value passed where the callee declares a plain type: the caller has checked it
+        (obligation `arg_not_none` otherwise); the contract sees the unwrapped value"""
+        anns = {p.arg: p.annotation for p in fn_node.args.posonlyargs + fn_node.args.args + fn_node.args.kwonlyargs}
+        for pname, val in list(bound.items()):
+            if isinstance(val, Sym) and isinstance(val.ty, OptTy) and anns.get(pname) is not None:
+                dt = arg_types.get(pname) or self.world.ann_to_ty(anns[pname], modpath)
+                if dt is not None and not isinstance(dt, OptTy):
+                    if not self.entails(st, v_not(v_is_none(val))):
+                        self.obligations.append(Obligation(f"{callid}.arg_not_none.{pname}", "call-pre", list(st.hyps),
+                                                           z3_bool(v_not(v_is_none(val))), {"callee": key}))
+                    bound[pname] = v_unwrap(val)
 
     def construct(self, cv, args, kw, st, where):
         ci = cv.ci
